@@ -403,6 +403,28 @@ func propC08Sequential(t *rapid.T) {
 	// P is issued from ONE source line (the stack trace legitimately contains
 	// the caller's line), in a loop over the phases.
 	var base c08Obs
+	// a third observation of P's fields: what an observing core would hand to its reader (the map encoder's
+	// result). It is taken once and KEPT while the history runs: nothing later may change it.
+	var keptMap map[string]interface{}
+	keptText := ""
+	func() {
+		defer func() {
+			if recover() != nil {
+				keptMap = nil // a generated marshaler that panics: no observation
+			}
+		}()
+		menc := zapcore.NewMapObjectEncoder()
+		for _, round := range p.c.ctx {
+			for _, f := range fieldsOf(round) {
+				f.AddTo(menc)
+			}
+		}
+		for _, f := range fieldsOf(p.c.site) {
+			f.AddTo(menc)
+		}
+		keptMap = menc.Fields
+		keptText = fmt.Sprintf("%v", keptMap)
+	}()
 	phases := []string{"first call", "after history", "after GC", "after second history", "after GC followed by history"}
 	for ph, name := range phases {
 		switch ph {
@@ -428,6 +450,11 @@ func propC08Sequential(t *rapid.T) {
 		}
 		c08Compare(t, p, name, base, got, h)
 		c08HookSaw(t, p)
+		if keptMap != nil {
+			if now := fmt.Sprintf("%v", keptMap); now != keptText {
+				t.Fatalf("%s: the field map an observer was handed BEFORE the history has changed under its reader's feet:\n was %s\n now %s\nhistory %v", name, clipS(keptText), clipS(now), h.names)
+			}
+		}
 	}
 	if bytes.Contains(discard.all(), []byte("POISON")) {
 		t.Fatalf("poisoned pool buffer content is visible in another logger's output")
